@@ -1,7 +1,9 @@
 """Runner: executes plans of one check module under caps, in a fork pool; aggregates evidence;
 handles known findings; minimises and writes replay files for unlisted violations."""
 from __future__ import annotations
+import contextlib
 import faulthandler
+import io
 import importlib.util
 import json
 import os
@@ -66,7 +68,8 @@ def execute_plan(mod, plan, known_open, cap_s=60.0, keep_events=False):
     old = signal.signal(signal.SIGALRM, _alarm)
     signal.setitimer(signal.ITIMER_REAL, cap_s)
     try:
-        mod.execute(plan, ctx)
+        with contextlib.redirect_stdout(io.StringIO()):     # the library prints progress messages
+            mod.execute(plan, ctx)
     except StopRun:
         pass
     except HarnessError as e:
